@@ -153,12 +153,14 @@ func (ds *dataStore) enterListMultiBlock(keyNames []string) (ws *wakeSignal) {
 	return ds.waitingClients.enterMultiWait(keyNames)
 }
 
-func (ds *dataStore) leaveListBlock(ws *wakeSignal) {
+// ends the wait; wokenFor names the list whose push had woken the client, if any
+func (ds *dataStore) leaveListBlock(ws *wakeSignal) (wokenFor string) {
 	simBeforeLock(&ds.mu, "ds.mu")
 	ds.mu.Lock()
 	defer simAfterUnlock(&ds.mu, "ds.mu")
 	defer ds.mu.Unlock()
 	ds.waitingClients.disposeWakeSignal(ws)
+	return ws.wokenFor
 }
 
 func (ds *dataStore) unblockListUnlocked(keyName string, elements int) {
